@@ -123,7 +123,7 @@ impl CoreDID {
 
   /// Validates whether a string is a valid [`DID`] method name.
   pub fn valid_method_name(value: &str) -> Result<(), Error> {
-    if !value.chars().all(is_char_method_name) {
+    if value.is_empty() || !value.chars().all(is_char_method_name) {
       return Err(Error::InvalidMethodName);
     }
     Ok(())
@@ -141,6 +141,9 @@ impl CoreDID {
     // if !value.chars().all(is_char_method_id) {
     //   return Err(Error::InvalidMethodId);
     // }
+    if value.is_empty() {
+      return Err(Error::InvalidMethodId);
+    }
     let mut chars = value.chars();
     while let Some(c) = chars.next() {
       match c {
